@@ -26,6 +26,8 @@ from typing import Callable
 from typing import Final
 
 from numpy import atleast_1d
+from numpy import atleast_2d
+from numpy import eye
 from strenum import StrEnum
 
 from gemseo.algos.aggregation.core import compute_iks_agg
@@ -46,7 +48,23 @@ from gemseo.utils.data_conversion import split_array_to_dict_of_arrays
 if TYPE_CHECKING:
     from collections.abc import Sequence
 
+    from gemseo.typing import RealArray
     from gemseo.typing import StrKeyMapping
+
+
+def _compute_partial_max_agg_jac(
+    orig_val: RealArray, **options: Any
+) -> RealArray:
+    """Compute the Jacobian of the max function with respect to the constraints.
+
+    Args:
+        orig_val: The original constraint values.
+        **options: The options of :func:`.compute_max_agg_jac`.
+
+    Returns:
+        The Jacobian of the max function with respect to the constraints.
+    """
+    return atleast_2d(compute_max_agg_jac(orig_val, eye(orig_val.size), **options))
 
 
 class ConstraintAggregation(Discipline):
@@ -97,7 +115,7 @@ class ConstraintAggregation(Discipline):
         EvaluationFunction.LOWER_BOUND_KS: compute_partial_ks_agg_jac,
         EvaluationFunction.UPPER_BOUND_KS: compute_partial_ks_agg_jac,
         EvaluationFunction.POS_SUM: compute_partial_sum_positive_square_agg_jac,
-        EvaluationFunction.MAX: compute_max_agg_jac,
+        EvaluationFunction.MAX: _compute_partial_max_agg_jac,
         EvaluationFunction.SUM: compute_partial_sum_square_agg_jac,
     }
 
